@@ -127,6 +127,10 @@ var FieldDeepEqualContainer = `
 		{{$src}} := {{.Source}}[{{$idx}}]
 		{{- end}}
 		{{- $ctx := (.ValCtx.WithTarget "v").WithSource $src}}
+		{{- if and .ValCtx.Type.Category.IsStructLike Features.ValueTypeForSIC}}
+		{{- /* elements are values, DeepEqual takes a pointer */}}
+		{{- $ctx = $ctx.WithSource (printf "&%s" $src)}}
+		{{- end}}
 		{{- template "FieldDeepEqual" $ctx}}
 	}
 {{- end}}{{/* "FieldDeepEqualContainer" */}}
